@@ -16,8 +16,9 @@ for _, {{ $.Source }} := range {{ $.ArgVar }} {
 }
 	{{- else -}}
 	{{ .Validate }}
-		{{- range .Fields -}}
+		{{- range $i, $f := .Fields -}}
 			{{- if .IsRequired -}}
+				{{- if or $i $.Validate }}{{ "\n" }}{{ end -}}
 if {{ $.Source }}.{{ .FieldName }} == nil {
 	err = goa.MergeErrors(err, goa.MissingFieldError({{ printf "%q" .Name }}, {{ printf "%q" $.Source }}))
 }
